@@ -67,3 +67,17 @@ func TestVerifC01BoltModify(t *testing.T) {
 	p.End(complete, "dirs x class {0,1,256 | thorough: all} x header shapes with distinct keys x content {0,1,256,65536 | thorough: all} x 13 modifications"+vc01.ModTwinsBound,
 		"modification applied through HeaderMap.Set/Del, SetData, (Class field + a header write); then three upstream attempts (SetData(same buffer object), SetRequestId, Encode): the first Encode must return an error or, like each later one, bytes that the reference parser AND a fresh Decode read back as exactly the modified class/headers/body, unmodified fixed fields, consistent lengths; an error is accepted only for content that does not fit the 16-bit class/header-block fields"+vc01.ModTwinsRule)
 }
+
+// Non-canonical header blocks (null strings as sofa-bolt java writes them, empty
+// and duplicate keys, ... every block of a few strings): accepted? forwarded
+// unmodified byte-identically? re-encoded with consistent lengths after a
+// modification? See vc01/noncanon.go.
+func TestVerifC01BoltHeaderForms(t *testing.T) {
+	p := vreport.Begin("C01", "bolt-header-forms", time.Duration(vreport.Pick(60, 900))*time.Second)
+	a := c01Adapter()
+	modes := []string{""}
+	complete := vreport.Run(p,
+		func(yield func(vc01.Case) bool) { vc01.BoltFormCases("bolt", modes, yield) },
+		func(p *vreport.Part, c vc01.Case) { vc01.CheckForm(p, a, c) })
+	p.End(complete, vc01.BoltFormBound(modes), vc01.BoltFormRule)
+}
